@@ -23,6 +23,7 @@ Interpretation decisions (weaker reading where the statement is silent):
  * Dsv::row_count() (number of separators) is not part of the statement and is not checked here.
 """
 import json
+import os
 import vlib
 
 LEVEL = "model_checking"
@@ -129,8 +130,9 @@ def sig_of(e, events, k):
 
 def run(ctx):
     q = ctx.quick
-    vlib.model_check(ctx, "MC_Dsv.tla", "MC_Dsv_quick.cfg" if q else "MC_Dsv_thorough.cfg", workers=6,
-                     timeout=3000)
+    if not os.environ.get("VERIF_DEV_SKIP_MODEL"):      # development only (mutation runs against the code)
+        vlib.model_check(ctx, "MC_Dsv.tla", "MC_Dsv_quick.cfg" if q else "MC_Dsv_thorough.cfg", workers=6,
+                         timeout=3000)
 
     # ---- impl -> spec: trace validation
     b = vlib.harness_bin("c21")
